@@ -841,3 +841,65 @@ _c = K("ClimateNetwork.threshold_from_link_density", "climate/climate_network.py
            "int((1-link_density)*shape(flat_corr,0)), shape(flat_corr,0)-1)) <= link_density*shape(flat_corr,0)"]},
        checks=("bounds",))
 _c.region = "body"
+
+# ============================================================================ call-site contracts of the Python wrappers (USES)
+# The public method really hands the work to the verified kernel, exactly once, with arguments that satisfy the
+# kernel's precondition (shape facts come from the class invariants stated as `requires` of the region), and - where
+# several kernels exist - picks the one the object's mode flags call for.
+def _uses(name, file, method, props, inputs, requires, calls, total="==1", extra_ensures=(), region="body"):
+    asserts = {"call:" + k: v for k, v in calls.items()}
+    cnt = "+".join(f"count('{k}')" for k in calls)
+    c = K(name, file, lang="py", func=method, props=props, py_mode=True, inputs=inputs, requires=requires,
+          asserts=asserts, count_calls=tuple(calls), ensures=[f"{cnt}{total}"] + list(extra_ensures), checks=("shape",))
+    c.region = region
+    return c
+
+
+_uses("Grid.euclidean_distance[uses]", "core/grid.py", "Grid.euclidean_distance", ("C12", "C20"),
+      {"sequences": "arr:float32:2", "self.N": "int"}, ["shape(sequences,1)==self.N", "self.N>=0"],
+      {"_calculate_euclidean_distance": ["shape(arg0,0)==arg2 and shape(arg0,1)==arg3", "shape(arg1,0)==arg3 and shape(arg1,1)==arg3",
+                                         "arg3==self.N"]},
+      extra_ensures=["shape(result,0)==self.N and shape(result,1)==self.N"])
+_uses("GeoGrid.angular_distance[uses]", "core/geo_grid.py", "GeoGrid.angular_distance", ("C12", "C20"),
+      {"self.N": "int"}, ["self.N>=0"],
+      {"_calculate_angular_distance": ["shape(arg4,0)==arg5 and shape(arg4,1)==arg5", "arg5==self.N"]})
+for _m in ("manhattan", "euclidean", "supremum"):
+    _uses(f"RecurrencePlot.{_m}_distance_matrix[uses]", "timeseries/recurrence_plot.py", f"RecurrencePlot.{_m}_distance_matrix",
+          ("C07", "C20"), {"self.embedding": "arr:float64:2"}, [],
+          {f"_{_m}_distance_matrix_rp": ["shape(arg2,0)==arg0 and shape(arg2,1)==arg1"]})
+_uses("VisibilityGraph.visibility_relations[uses]", "timeseries/visibility_graph.py", "VisibilityGraph.visibility_relations",
+      ("C14", "C20"),
+      {"self.time_series": "arr:float32:1", "self.timings": "arr:float32:1", "self.missing_values": "bool",
+       "self.missing_value_indices": "arr:bool:1"},
+      ["shape(self.timings,0)==shape(self.time_series,0)", "shape(self.missing_value_indices,0)==shape(self.time_series,0)"],
+      {"_visibility_relations_missingvalues": ["self.missing_values!=0", "shape(arg0,0)==arg2 and shape(arg1,0)==arg2",
+                                               "shape(arg3,0)==arg2 and shape(arg3,1)==arg2 and shape(arg4,0)==arg2",
+                                               "all(arg3[a,b]==0 for a in range(arg2) for b in range(arg2))"],
+       "_visibility_relations_no_missingvalues": ["self.missing_values==0", "shape(arg0,0)==arg2 and shape(arg1,0)==arg2",
+                                                  "shape(arg3,0)==arg2 and shape(arg3,1)==arg2",
+                                                  "all(arg3[a,b]==0 for a in range(arg2) for b in range(arg2))"]})
+_uses("VisibilityGraph.visibility_relations_horizontal[uses]", "timeseries/visibility_graph.py",
+      "VisibilityGraph.visibility_relations_horizontal", ("C14", "C20"),
+      {"self.time_series": "arr:float32:1", "self.missing_values": "bool", "self.missing_value_indices": "arr:bool:1"},
+      ["shape(self.missing_value_indices,0)==shape(self.time_series,0)"],
+      {"_visibility_relations_horizontal": ["shape(arg0,0)==arg1", "shape(arg2,0)==arg1 and shape(arg2,1)==arg1",
+                                            "all(arg2[a,b]==0 for a in range(arg1) for b in range(arg1))"]},
+      # with missing values every row and column of a missing sample is cleared afterwards
+      extra_ensures=["implies(self.missing_values!=0, all(implies(self.missing_value_indices[a]==1, result[a,b]==0 and result[b,a]==0) "
+                     "for a in range(shape(self.time_series,0)) for b in range(shape(self.time_series,0))))"])
+
+# C08 MODE: which instantiation of the line kernel serves which (sparse_rqa, missing_values) mode
+for _kind, _white in (("diagline", False), ("vertline", False)):
+    _uses(f"RecurrencePlot.{_kind}_dist[uses]", "timeseries/recurrence_plot.py", f"RecurrencePlot.{_kind}_dist", ("C08", "C20"),
+          {"self.N": "int", "self.sparse_rqa": "bool", "self.missing_values": "bool", "recmat": "arr:int8:2",
+           "self.missing_value_indices": "arr:bool:1", "embedding": "arr:float64:2", "mv_indices": "arr:bool:1"},
+          ["self.N>=0", "shape(self.missing_value_indices,0)==self.N", "shape(mv_indices,0)==self.N"],
+          {f"_{_kind}_dist": ["self.sparse_rqa==0 and self.missing_values==0", "arg0==self.N and shape(arg1,0)==self.N",
+                              "all(arg1[q]==0 for q in range(self.N))"],
+           f"_{_kind}_dist_missingvalues": ["self.sparse_rqa==0 and self.missing_values!=0", "arg0==self.N and shape(arg1,0)==self.N",
+                                            "all(arg1[q]==0 for q in range(self.N))"],
+           f"_{_kind}_dist_sequential": ["self.sparse_rqa!=0 and self.missing_values==0", "arg0==self.N and shape(arg1,0)==self.N",
+                                         "all(arg1[q]==0 for q in range(self.N))"],
+           f"_{_kind}_dist_sequential_missingvalues": ["self.sparse_rqa!=0 and self.missing_values!=0",
+                                                       "arg0==self.N and shape(arg1,0)==self.N",
+                                                       "all(arg1[q]==0 for q in range(self.N))"]})
